@@ -48,6 +48,18 @@ def loop_io(ctx, prog, eff, rule='LOOP-IO'):
     return n
 
 
+def hdr_zero(ctx, prog, rule):
+    b = prog.fn('psf_bump_header_allocation', 'common.c')
+    # memory added by the realloc is zeroed (sd2 and others place items at absolute header offsets and rely on zero gaps): the
+    # memset over [old len, new len) exists, is computed from the OLD psf->header.len, i.e. no assignment of header.len precedes it
+    from engine.util import assigned_lvalues as _al
+    ms = [c for c in b.calls('memset') if 'psf->header.len' in b.s(b.args(c)[0]) and 'psf->header.len' in b.s(b.args(c)[2])]
+    las = [a for lv, a, r in _al(b) if lv == 'psf->header.len']
+    okz = bool(ms) and bool(las) and all(not b.cfg.path_avoiding(a, {b.cfg.point(ms[0])[0]}, set()) for a in las)
+    ctx.ob(rule, 'zero-new-memory', okz, b.loc(ms[0]) if ms else b.loc(b.body), 'memory added by realloc is zeroed from the old length to the new one, before header.len is updated' if okz else
+           ('no memset over [psf->header.len, newlen) found' if not ms else 'psf->header.len is assigned on a path BEFORE the zero-fill: its guard compares the new length with itself, the added bytes stay uninitialised (stale heap contents can reach files)'), None)
+
+
 def run(ctx):
     prog = ctx.prog
     eff = Effects(prog)
@@ -119,6 +131,7 @@ def run(ctx):
     ctx.require(re_, 'psf_bump_header_allocation has no realloc')
     sz = bd.ev(b.unwrap(b.args(re_[0])[1]))
     ctx.ob('HDR-CACHE', 'cap', sz.hi is not None and sz.hi <= 100 * 1024, b.loc(re_[0]), 'realloc size bounded by %s (cap 102400)' % sz.hi, None)
+    hdr_zero(ctx, prog, 'HDR-CACHE')
     for name in ('header_read', 'header_gets', 'header_seek', 'psf_binheader_writef'):
         g = prog.fn(name, 'common.c')
         guards = [blk for blk in g.cfg.blocks.values() if 'cond' in blk and ('psf->header.len' in g.s(blk['cond']) or 'psf_bump_header_allocation' in g.s(blk['cond']))]
